@@ -103,20 +103,22 @@ type tp struct {
 //	changes : move move_coord move_controller add_broker remove_broker
 //	other   : await (until the cache shows the cluster's current layout) sleep
 type step struct {
-	Op     string      `json:"op"`
-	Topic  string      `json:"topic,omitempty"`
-	Parts  []int32     `json:"parts,omitempty"`
-	TPs    []tp        `json:"tps,omitempty"`
-	Names  []string    `json:"names,omitempty"`
-	NilAll bool        `json:"nil_names,omitempty"` // metadata: nil topic list (all topics)
-	Api    string      `json:"api,omitempty"`
-	Key    string      `json:"key,omitempty"`
-	To     int32       `json:"to,omitempty"`
-	N      int         `json:"n,omitempty"`
-	Par    int         `json:"par,omitempty"`
-	Acks   int16       `json:"acks,omitempty"`
-	Client bool        `json:"client,omitempty"` // go through a kafka.Client method instead of RoundTrip
-	Broker *brokerSpec `json:"broker,omitempty"`
+	Op     string   `json:"op"`
+	Topic  string   `json:"topic,omitempty"`
+	Parts  []int32  `json:"parts,omitempty"`
+	TPs    []tp     `json:"tps,omitempty"`
+	Names  []string `json:"names,omitempty"`
+	NilAll bool     `json:"nil_names,omitempty"` // metadata: nil topic list (all topics)
+	Api    string   `json:"api,omitempty"`
+	Key    string   `json:"key,omitempty"`
+	To     int32    `json:"to,omitempty"`
+	N      int      `json:"n,omitempty"`
+	Par    int      `json:"par,omitempty"`
+	Acks   int16    `json:"acks,omitempty"`
+	Client bool     `json:"client,omitempty"` // go through a kafka.Client method instead of RoundTrip
+	// Validate (create): ValidateOnly is set, the controller checks the request and creates nothing
+	Validate bool        `json:"validate,omitempty"`
+	Broker   *brokerSpec `json:"broker,omitempty"`
 }
 
 type routeCase struct {
@@ -648,7 +650,14 @@ func (w *world) call(s step) (err error, metaCanon string, metaOK bool) {
 		for _, n := range s.Names {
 			tc = append(tc, kafka.TopicConfig{Topic: n, NumPartitions: s.N, ReplicationFactor: 1})
 		}
-		_, err := w.client.CreateTopics(ctx, &kafka.CreateTopicsRequest{Topics: tc})
+		if s.Validate {
+			// The transport waits after every successful CreateTopics response until the topics show up in its metadata, which
+			// they never do after a validation: the call returns only when its context ends (observation, DESIGN 7.5).
+			var vcancel context.CancelFunc
+			ctx, vcancel = context.WithTimeout(ctx, 250*time.Millisecond)
+			defer vcancel()
+		}
+		_, err := w.client.CreateTopics(ctx, &kafka.CreateTopicsRequest{Topics: tc, ValidateOnly: s.Validate})
 		return err, "", false
 	case "delete":
 		_, err := w.client.DeleteTopics(ctx, &kafka.DeleteTopicsRequest{Topics: append([]string{}, s.Names...)})
@@ -830,7 +839,7 @@ func execute(c routeCase) *result {
 		w.names = append(w.names, t.Name)
 	}
 	for _, s := range c.Steps {
-		if s.Op == "create" || s.Op == "metadata_wire" {
+		if s.Op == "create" || s.Op == "metadata_wire" { // validate-only creations too: below v1 the flag does not exist and the topic is created
 			w.names = append(w.names, s.Names...)
 		}
 	}
